@@ -357,6 +357,8 @@ func (c *fctx) applyContract(fr *frame, key string, ct *spec.FuncContract, fn *s
 			alts = append(alts, and(cs...))
 		}
 		c.addObl(&Obligation{Name: fr.prefix + "recursion/decreases@" + c.P.SrcLine(pos), Kind: "decreases", Guard: reach, Goal: or(alts...), Pos: c.pos(pos), SrcLine: c.P.SrcLine(pos)})
+	} else if fn != nil && fn == c.fn && len(ct.Decr) == 0 && ct.DecrAssumed {
+		c.used["assumed: termination of the recursion of "+shortFn(fn.String())+" (decreases _)"] = true
 	} else if fn != nil && fn == c.fn && len(ct.Decr) == 0 && !c.noRecCheck {
 		c.errorf("%s: recursive call without a decreases clause", fn)
 	}
